@@ -36,6 +36,7 @@ static void patch_out (program_t *, short *, size_t);
 static void patch_in (program_t *, short *, size_t);
 static int str_case_cmp (char *, char *);
 static int check_times (time_t, const char *);
+static int inherited_source_newer (program_t *, time_t);
 static int locate_in (program_t *);
 static int locate_out (program_t *);
 
@@ -652,6 +653,16 @@ program_t *load_binary (const char *name) {
           inherit_file = buf;	/* freed elsewhere */
           return 0;
         }
+      /* the programs that one inherits in turn: a change in any of their sources makes this binary stale as well */
+      if (inherited_source_newer (ob->prog, mtime))
+        {
+          opt_trace (TT_COMPILE|1, "out of date (indirectly inherited source is newer).");
+          fclose (f);
+          free_string (p->name);
+          FREE (p);
+          FREE (buf);
+          return OUT_OF_DATE;
+        }
       p->inherit[i].prog = ob->prog;
     }
   opt_trace (TT_COMPILE|3, "loaded inherit names ok. num_inherited = %d.", p->num_inherited);
@@ -889,6 +900,28 @@ check_times (time_t mtime, const char *nm)
     }
   return 1;
 }				/* check_times() */
+
+/*
+ * Is the source of any program that prog inherits (at any depth) newer than mtime?
+ */
+static int
+inherited_source_newer (program_t * prog, time_t mtime)
+{
+  int i;
+
+  for (i = 0; i < (int) prog->num_inherited; i++)
+    {
+      program_t *ip = prog->inherit[i].prog;
+
+      if (!ip)
+        continue;
+      if (ip->name && check_times (mtime, ip->name) == 0)
+        return 1;
+      if (inherited_source_newer (ip, mtime))
+        return 1;
+    }
+  return 0;
+}
 
 /*
  * Routines to do some hacking on the program being saved/loaded.
